@@ -1,5 +1,8 @@
 """Library-level properties decided by the in-process harness `vh`:
 C01, C05, C16, C17, C18, C19, C20 (CLI stages are driven by vh as well)."""
+import json
+import os
+
 from common import VARIANT, Result, asan_stage, build, finish, run_vh, run_vh_miri, seed
 
 
@@ -33,6 +36,42 @@ def valgrind_stage(r, sub, cases):
     j = run_vh(sub, "quick", stage="cli", cases=cases, sd=seed() + 77, env_extra={"VH_VALGRIND": "1", "COPIA_BIN": COPIA_VG})
     r.merge_vh(j, "valgrind-cli:")
     r.extra["valgrind_stage"] = {"copia_runs_under_memcheck": j["evaluations"], "tool": "valgrind memcheck --error-exitcode=97 (no RLIMIT_AS in this stage); binary = release build with -C target-cpu=x86-64-v2 because valgrind 3.19 cannot run the repository's target-cpu=native code"}
+
+
+def fuzz_stage(r, target, pid, secs=120):
+    """Thorough tier only: libFuzzer (cargo-fuzz, ASan, -fork=16) on an in-process decode target, seeded with
+    valid encodings; artifacts AND the final corpus are replayed through vh's ordinary oracle, and only what
+    reproduces there is a violation."""
+    import shutil as _sh
+    import subprocess as _sp
+    import tempfile
+    from common import REPO, TARGET, V, VH, WORK
+    out = tempfile.mkdtemp(prefix="fuzz-%s-" % target, dir=WORK if os.path.isdir(WORK) else None)
+    try:
+        _sp.run([VH, "dump-seeds", "--kind", target, "--dir", out + "/seed", "--seed", str(seed())], check=False, stdout=_sp.DEVNULL, stderr=_sp.DEVNULL)
+        p = _sp.run([V + "/bin/fuzz.sh", target, str(secs), out], env=dict(os.environ, VERIF_REPO=REPO, VERIF_TARGET=TARGET), stdout=_sp.PIPE, stderr=_sp.PIPE, text=True)
+        if p.returncode == 3:
+            r.extra["fuzz_stage"] = {"skipped": "fuzz build unavailable: " + p.stderr[-200:]}
+            return
+        stats = ""
+        try:
+            stats = [l for l in open(out + "/run.log", errors="replace").read().splitlines() if "cov:" in l][-1][:160]
+        except Exception:
+            pass
+        sub = "replay-frame" if target == "frame" else "replay-decode"
+        total = 0
+        arts = len(os.listdir(out + "/artifacts"))
+        for d in ("artifacts", "corpus"):
+            q = _sp.run([VH, sub, "--dir", os.path.join(out, d)], stdout=_sp.PIPE, stderr=_sp.PIPE)
+            try:
+                j = json.loads(q.stdout.decode())
+            except Exception:
+                continue
+            r.merge_vh(j, "fuzz-%s:" % d)
+            total += j["evaluations"]
+        r.extra["fuzz_stage"] = {"target": target, "seconds": secs, "libfuzzer_last_status": stats, "artifacts": arts, "files_replayed_through_vh": total}
+    finally:
+        _sh.rmtree(out, ignore_errors=True)
 
 
 ASSUME_LIB = [
@@ -138,4 +177,6 @@ def c20(tier):
         valgrind_stage(r, "c20", 4)
     if tier == "thorough":
         asan_stage(r, "C20")
+    if tier == "thorough":
+        fuzz_stage(r, "decode", "C20")
     finish(r, tier)
